@@ -25,7 +25,8 @@ type PitCsTree struct {
 
 	nCsEntries    int
 	csReplacement CsReplacementPolicy
-	csMap         map[uint64]*nameTreeCsEntry
+	csMap         map[uint64]*nameTreeCsEntry // CS entry by index
+	nextCsIndex   uint64                      // index of the next new CS entry
 
 	pitExpiryQueue pq.Queue[*nameTreePitEntry, int64]
 	updateTimer    chan struct{}
@@ -44,13 +45,23 @@ type nameTreeCsEntry struct {
 	node        *pitCsTreeNode // the tree node associated with this entry
 }
 
+// pitCsChildKey identifies a child of a tree node by the component itself (type and
+// value). A hash of the component is not an identity: the hash is an unkeyed 64-bit
+// xxHash, for which different components with equal hashes are easily computed, and a
+// lookup that follows hashes only answers with the entries of a different name.
+type pitCsChildKey struct {
+	typ enc.TLNum
+	val string
+}
+
 // pitCsTreeNode represents an entry in a PIT-CS tree.
 type pitCsTreeNode struct {
 	component *enc.Component
+	key       pitCsChildKey // key of this node in parent.children
 	depth     int
 
 	parent   *pitCsTreeNode
-	children map[uint64]*pitCsTreeNode
+	children map[pitCsChildKey]*pitCsTreeNode
 
 	pitEntries []*nameTreePitEntry
 
@@ -63,7 +74,7 @@ func NewPitCS(onExpiration OnPitExpiration) *PitCsTree {
 	pitCs.root = new(pitCsTreeNode)
 	pitCs.root.component = nil // Root component will be nil since it represents zero components
 	pitCs.root.pitEntries = make([]*nameTreePitEntry, 0)
-	pitCs.root.children = make(map[uint64]*pitCsTreeNode)
+	pitCs.root.children = make(map[pitCsChildKey]*pitCsTreeNode)
 	pitCs.onExpiration = onExpiration
 	pitCs.pitTokenMap = make(map[uint32]*nameTreePitEntry)
 	pitCs.pitExpiryQueue = pq.New[*nameTreePitEntry, int64]()
@@ -316,7 +327,8 @@ func At(n enc.Name, index int) enc.Component {
 
 func (p *pitCsTreeNode) findExactMatchEntryEnc(name enc.Name) *pitCsTreeNode {
 	if len(name) > p.depth {
-		if child, ok := p.children[At(name, p.depth).Hash()]; ok {
+		c := At(name, p.depth)
+		if child, ok := p.children[pitCsChildKey{c.Typ, string(c.Val)}]; ok {
 			return child.findExactMatchEntryEnc(name)
 		}
 	} else if len(name) == p.depth {
@@ -327,7 +339,8 @@ func (p *pitCsTreeNode) findExactMatchEntryEnc(name enc.Name) *pitCsTreeNode {
 
 func (p *pitCsTreeNode) findLongestPrefixEntryEnc(name enc.Name) *pitCsTreeNode {
 	if len(name) > p.depth {
-		if child, ok := p.children[At(name, p.depth).Hash()]; ok {
+		c := At(name, p.depth)
+		if child, ok := p.children[pitCsChildKey{c.Typ, string(c.Val)}]; ok {
 			return child.findLongestPrefixEntryEnc(name)
 		}
 	}
@@ -340,11 +353,12 @@ func (p *pitCsTreeNode) fillTreeToPrefixEnc(name enc.Name) *pitCsTreeNode {
 		newNode := new(pitCsTreeNode)
 		var temp = At(name, depth-1)
 		newNode.component = &temp
+		newNode.key = pitCsChildKey{temp.Typ, string(temp.Val)}
 		newNode.depth = depth
 		newNode.parent = curNode
-		newNode.children = make(map[uint64]*pitCsTreeNode)
+		newNode.children = make(map[pitCsChildKey]*pitCsTreeNode)
 
-		curNode.children[newNode.component.Hash()] = newNode
+		curNode.children[newNode.key] = newNode
 		curNode = newNode
 	}
 	return curNode
@@ -357,7 +371,7 @@ func (p *pitCsTreeNode) getChildrenCount() int {
 func (p *pitCsTreeNode) pruneIfEmpty() {
 	for curNode := p; curNode.parent != nil && curNode.getChildrenCount() == 0 &&
 		len(curNode.pitEntries) == 0 && curNode.csEntry == nil; curNode = curNode.parent {
-		delete(curNode.parent.children, curNode.component.Hash())
+		delete(curNode.parent.children, curNode.key)
 	}
 }
 
@@ -393,7 +407,6 @@ func (p *PitCsTree) FindMatchingDataFromCS(interest *spec.Interest) CsEntry {
 
 // InsertData inserts a Data packet into the Content Store.
 func (p *PitCsTree) InsertData(data *spec.Data, wire []byte) {
-	index := data.NameV.Hash()
 	staleTime := time.Now()
 	if data.MetaInfo != nil && data.MetaInfo.FreshnessPeriod != nil {
 		staleTime = staleTime.Add(*data.MetaInfo.FreshnessPeriod)
@@ -402,16 +415,20 @@ func (p *PitCsTree) InsertData(data *spec.Data, wire []byte) {
 	store := make([]byte, len(wire))
 	copy(store, wire)
 
-	if entry, ok := p.csMap[index]; ok {
+	// The entry cached under this name is the one at the tree node of the name: the
+	// hash of the name does not identify it, different names can have the same hash
+	node := p.root.fillTreeToPrefixEnc(data.NameV)
+	if entry := node.csEntry; entry != nil {
 		// Replace existing entry
 		entry.wire = store
 		entry.staleTime = staleTime
 
-		p.csReplacement.AfterRefresh(index, wire, data)
+		p.csReplacement.AfterRefresh(entry.index, wire, data)
 	} else {
-		// New entry
+		// New entry, under an index of its own
 		p.nCsEntries++
-		node := p.root.fillTreeToPrefixEnc(data.NameV)
+		index := p.nextCsIndex
+		p.nextCsIndex++
 		node.csEntry = &nameTreeCsEntry{
 			node: node,
 			baseCsEntry: baseCsEntry{
